@@ -43,6 +43,12 @@ func fixConnectReqContentLength(req *http.Request) {
 	}
 
 	req.ContentLength = -1
+
+	// A CONNECT request has no body, whatever it announces: what follows the head belongs to the
+	// tunnel. The body reader built from the announcement would swallow it, and closing it waits
+	// for the announced bytes without any deadline.
+	req.TransferEncoding = nil
+	req.Body = http.NoBody
 }
 
 // ErrConnectFallback is returned by a ConnectFunc to indicate
